@@ -352,6 +352,10 @@ def child_e2e(root: Path, case: Dict[str, Any]) -> Dict[str, Any]:
                         methods[ir["opName"]] = ir
                     except argwire.CanonError as e:
                         methods.setdefault("$canon_errors", []).append(f"{fn.name}: {e}")
+                        if case.get("loose_methods"):  # opt-in (C07): keep the method callable for the oracle
+                            loose = argwire.loose_method_ir(fn)
+                            if loose is not None:
+                                methods[loose["opName"]] = loose
     except SyntaxError as e:
         out["client_syntax_error"] = str(e)
     out["methods"] = methods
@@ -362,9 +366,17 @@ def child_e2e(root: Path, case: Dict[str, Any]) -> Dict[str, Any]:
             continue
         try:
             src = f.read_text()
-            out["result_modules"][f.stem] = {"classes": argwire.module_classes(src), "imports": argwire.module_imports(src)}
+            out["result_modules"][f.stem] = {"classes": argwire.module_classes(src), "imports": argwire.module_imports(src),
+                                             "bases": argwire.module_bases(src)}
         except (argwire.CanonError, SyntaxError) as e:
             out["result_modules"][f.stem] = {"canon_error": str(e)}
+    if (gen.dir / "fragments.py").exists():
+        try:
+            src = gen.read("fragments.py")
+            out["fragments_module"] = {"classes": argwire.module_classes(src), "imports": argwire.module_imports(src),
+                                       "bases": argwire.module_bases(src)}
+        except (argwire.CanonError, SyntaxError) as e:
+            out["fragments_module"] = {"canon_error": str(e)}
     try:
         inputs_src = gen.read("input_types.py")
         out["inputs"] = argwire.module_classes(inputs_src)
